@@ -154,6 +154,30 @@ CHECKS['C10'] = dict(level=MC, ref='4 C10',
          'O(dt^3) error although the manifold is the whole sector (mathematics of the method, see DESIGN.md). convergence ORDER for non-commuting time-dependent generators is not measured. runs that '
          'take > 45 s (expmv caps ncv by the number of STORED elements, D=1 symmetric states make thousands of tiny steps) are skipped and counted. bounded: N=2..5, 5 families, 56/800 runs',
     technique='TLA+ cache-coherence protocol (EnvCoherence) + TDVP sweep schedules incl. all 12site decision sequences (Sweeps, SweepsMC) + TLC + trace validation of recorded tdvp_ runs')
+CHECKS['C11'] = dict(level=MC, ref='4 C11',
+    text='PepsOps.tla (on Fock.tla) defines a finite PEPS as the Fock vector returned by to_tensor() (occupied physical modes in the fermionic site order, ancilla labels as spectators, Gaussian-integer '
+         'amplitudes) and ApplyOp / LinComb on it with every Jordan-Wigner sign from Fock!ApplyWord. Binding: random circuits of INTEGER gates on real finite PEPS (8 families, obc lattices up to 6 sites and '
+         'cylinders, product states pure / one-dimensional ancillas / full purification); after every apply_gate_ (nearest-neighbour in both orientations and all four directions, exact and SVD split, local, '
+         'two-site along longer paths, MPO gates of 2..4 sites along arbitrary paths) and every PEPS addition TracePeps.tla computes the expected vector from the REGISTERED previous one and requires '
+         'equality entry by entry; DoublePepsTensor.tensordot must equal tensordot of fuse_layers() entry by entry for every supported axis pair, both operand orders, random transposition / operator / '
+         'charge swaps. Predefined gates are compared as dense matrices with scipy expm(-step H), H being a combination of basis matrices each validated against Fock!Matrix by TLC.',
+    note='the expm comparison of the predefined gates is a floating-point observation (1e-10 relative); everything else is exact integer arithmetic in TLC. local gates are parity-even; a gate that annihilates '
+         'the state ends the comparison at that step; purifications are limited to (2^nm)^(2N) <= 300 amplitudes. bounded: lattices up to 6 sites (4 spinful), 96/1200 circuits of 5/7 gates, 16/200 '
+         'DoublePepsTensor instances x 12 contractions, 8/96 predefined-gate parameter sets per family',
+    technique='TLA+ Fock-space reference semantics (Fock, PepsOps) + TLC + trace validation of recorded to_tensor() states of real gate circuits, replayed from registered states')
+CHECKS['C18'] = dict(level=MC, ref='4 C18',
+    text='Krylov.tla states the integer part of the expmv controller (accept / reject, basis kept / reset, clamps on tau and ncv, forced shrink); KrylovMC model-checks it against EVERY environment '
+         '(monotone acceptance table, breakdown dimension, arbitrary proposals within what the formulas guarantee): no overshoot, ncv range, progress after every rejection, termination - and must FAIL '
+         'progress for the pre-fix rule (this is how the non-termination repaired in 9c578d6 was found). Binding: a class-level wrapper of Tensor.expand_krylov_space reads the controller variables of the '
+         'calling expmv frame at every iteration; TraceKrylov.tla requires every recorded iteration to be a controller transition (time advanced by exactly the step, basis kept iff rejected, clamps, forced '
+         'shrink, PROGRESS) and steps / krylov_steps / info.ncv to follow from the iterations; a repeated controller state is reported as non-termination. expmv / eigs / lin_solver results are compared with '
+         'scipy expm / numpy eig / true residuals on the dense matrix of the map restricted to the charge sector; TLC evaluates the implication structure (spans => exact; Hermitian and not spanning => bounds; '
+         'no premature breakdown; residual is the true one and not above the initial one).',
+    note='all dense comparisons are floating-point observations. expmv bound: (20 tol + 1e-13 (10 + map applications)) x condition number of the task, claims with bound > 1e-3 skipped; eigs statements that presume an '
+         'orthonormal basis (interlacing, orthonormal Ritz vectors) only for ncv <= 15 (no re-orthogonalisation), numerically ambiguous breakdowns not claimed; three open known findings (breakdown drops a '
+         'residual below tol; undetected breakdown in eigs; optimistic error estimate up to 2000 tol). calls needing > 4000 controller iterations are skipped and counted. bounded: sectors of dimension 2..120/200, '
+         '80/420 maps x (7 expmv + 2 eigs + 2 lin_solver)',
+    technique='TLA+ controller model (Krylov, KrylovMC incl. liveness) + TLC + trace validation of controller iterations recorded from real expmv calls; measured verdicts against dense references')
 NA = {}
 m = {"version": 1, "setup_cmd": "true",
      "hooks": {"guard": "YASTN_VERIF", "enable": "no source hooks so far: the harness wraps the public API from outside and imports yastn live from /repo (override: VERIF_REPO)",
